@@ -8,7 +8,7 @@ use_repo()
 XSI = E.XSI
 BASE = {'shape': {'s1': 1}, 'n': 5, 's': 'hello', 'd': '2020-02-29', 'col': 'red', 'xs': [1, 2],
         'ps': [{'name': 'ann', 'age': 30, 'born': '1990-01-02'}], 'p': {'name': 'bob', 'age': 40, 'born': '1980-03-04'},
-        'fl': 1.5, 'b': True, 'cs': [{'s1': 1, 'r': 2}], 'ss': [{'s1': 3}], 'aa': [['x', 'y'], ['z']]}
+        'fl': 1.5, 'b': True, 'cs': [{'s1': 1, 'r': 2}], 'ss': [{'s1': 3}], 'aa': [['x', 'y'], ['z']], 'de': '12.50'}
 HDR = {'token': 'tok-1', 'n': 3, 'd': '2021-05-06'}
 HDR_T = {'k': 'obj', 'ns': 'tns', 'name': 'Session'}
 TREES = {'emptymap': {}, 'emptylist': [], 'map1': {'k': 1}, 'list1': [1], 'str': 'str', 'strnum': '5', 'zero': 0, 'one': 1, 'false': False,
@@ -31,9 +31,9 @@ def export(ctx):
 
 def build(table, inp, outp):
     """the zoo application from the exported table -> (wsgi, seen, classes)"""
-    from spyne import Application, Service, srpc, rpc, ComplexModel, Integer, Unicode, Date, Boolean, Double, Array, Enum
+    from spyne import Application, Service, srpc, rpc, ComplexModel, Integer, Unicode, Date, Boolean, Double, Array, Enum, Decimal
     from spyne.server.wsgi import WsgiApplication
-    prim = {'Integer': Integer, 'Unicode': Unicode, 'Date': Date, 'Boolean': Boolean, 'Double': Double}
+    prim = {'Integer': Integer, 'Unicode': Unicode, 'Date': Date, 'Boolean': Boolean, 'Double': Double, 'Decimal': Decimal}
     Color = Enum('red', 'green', type_name='Color')
     classes = {}
 
